@@ -602,6 +602,7 @@ class HeapOps(HeapExecutor):
         out = []
         if h is None:
             return out
+        dec_src = (getattr(c, 'decreases', None) or {}).get(ordn) if c is not None else None
         for o, cnd in self.ev_cond(s.test, h):
             if not o.running:
                 out.append(o)
@@ -612,10 +613,22 @@ class HeapOps(HeapExecutor):
             body = o.assume(cnd)
             if body is None:
                 continue
+            m_old = None
+            if dec_src is not None:
+                # termination: the measure is non-negative whenever the guard holds and strictly decreases
+                outs_m = self.spec_value(dec_src, body)
+                m_old = as_int(outs_m)
+                body = body.copy()
+                body.obls.append(('decreases[loop%d].bounded' % ordn, list(body.pc), Le(intlit(0), m_old),
+                                  'measure %s is non-negative while the loop runs' % dec_src))
             for r in self.exec_block(s.body, body):
                 if r.status in ('run', 'cont'):
                     r = r.copy()
                     r.status = 'run'
+                    if m_old is not None:
+                        m_new = as_int(self.spec_value(dec_src, r))
+                        r.obls.append(('decreases[loop%d].strict' % ordn, list(r.pc), Lt(m_new, m_old),
+                                       'measure %s strictly decreases in every iteration' % dec_src))
                     gn, extran = self.eval_spec(inv_src, r, env_extra=dict(r.env))
                     r.obls.append(('inv[loop%d].preserved' % ordn, list(r.pc) + list(extran), gn, inv_src))
                     r.status = 'cut'
@@ -740,6 +753,21 @@ class HeapOps(HeapExecutor):
             r = ref.assume(And(*facts))
             out.append((r, VList(seq)))
         return out
+
+    def spec_value(self, src, st):
+        """value of a spec expression (single, total) in state st with its locals visible"""
+        node = ast.parse(src, mode='eval').body
+        o = st.copy()
+        self.spec_mode += 1
+        try:
+            outs = self.ev(node, o)
+        finally:
+            self.spec_mode -= 1
+        outs = [(s2, v) for s2, v in outs if s2.running or self.path_feasible(s2)]
+        outs = self.merge(outs, o)
+        if len(outs) != 1 or not outs[0][0].running:
+            raise SpecError('measure %s is not a total expression' % src)
+        return outs[0][1]
 
     def writes_heap(self, stmts):
         for st_ in stmts:
